@@ -316,7 +316,7 @@ fn run_main(id: &str, tier: Tier) -> i32 {
     let work = format!("{verif}/work/{id}");
     let _ = std::fs::remove_dir_all(&work);
     std::fs::create_dir_all(&work).unwrap();
-    let mut children = vec![];
+    let mut children: Vec<(std::process::Child, String, String, usize)> = vec![];
     for p in &profiles {
         let bin = format!("{verif}/harness/target/{p}/vcheck");
         for w in 0..per {
@@ -344,6 +344,32 @@ fn run_main(id: &str, tier: Tier) -> i32 {
     }
     let mut reports: Vec<WorkerReport> = vec![];
     let mut infra_fail = false;
+    // watchdog: a worker stuck inside a single poll of a library future (an infinite loop that
+    // never yields) cannot be told from slowness; after the deadline everything is killed and the
+    // check is inconclusive (exit 2) — never a violation
+    let deadline_s: u64 = std::env::var("VERIF_WATCHDOG_SECS").ok().and_then(|s| s.parse().ok()).unwrap_or(match tier {
+        Tier::Quick => 900,
+        Tier::Thorough => 5400,
+    });
+    loop {
+        let mut running = 0;
+        for (c, _, _, _) in children.iter_mut() {
+            if let Ok(None) = c.try_wait() {
+                running += 1;
+            }
+        }
+        if running == 0 {
+            break;
+        }
+        if t0.elapsed().as_secs() > deadline_s {
+            eprintln!("watchdog: {running} worker(s) still running after {deadline_s} s (stuck inside a poll, or far too slow): killed; inconclusive");
+            for (c, _, _, _) in children.iter_mut() {
+                let _ = c.kill();
+            }
+            return 2;
+        }
+        std::thread::sleep(std::time::Duration::from_millis(50));
+    }
     for (mut c, out, p, w) in children {
         let st = c.wait().unwrap();
         if !st.success() {
